@@ -27,6 +27,12 @@ for sid in ids:
     verdict='caught' if (r.returncode==1 and new) else ('MISSED' if r.returncode==0 else f'exit {r.returncode}')
     rows.append((sid,meta['breaks_property'],prop,verdict,', '.join(f'{c} x{n}' for c,n in new[:3]),meta.get('needs_to_manifest','')))
     print(sid,verdict,new[:2],flush=True)
+if sys.argv[1:] and os.path.exists('/verif/seeded/MATRIX.md'):
+    # partial run: keep the rows of the other ids
+    old=[l for l in open('/verif/seeded/MATRIX.md').read().splitlines() if re.match(r'^\| C\d\d-\w+ \|',l)]
+    keep=[tuple(c.strip() for c in l.strip('|').split(' | ')) for l in old]
+    keep=[k for k in keep if k[0] not in {r[0] for r in rows} and len(k)==6]
+    rows=sorted(keep+rows)
 with open('/verif/seeded/MATRIX.md','w') as f:
     head=subprocess.run(['git','-C','/repo','rev-parse','--short','HEAD'],capture_output=True,text=True).stdout.strip()
     f.write(f'# Seeded defects against the checks (tree {head}, quick tier, default seed)\n\n')
